@@ -262,6 +262,13 @@ def threshold_classes(scores, decreasing: bool, exact: bool = True, lo=0.0, hi=N
         cand.append(lo)  # e.g. ASSD <= 0.0: only perfect instances pass (0.0 is falsy in python)
     if exact:
         cand.extend(s)
+    # probes right beside a score (same class as a midpoint, but where tolerance-based comparisons go wrong)
+    # on the side where the score must fail: just above it for higher-is-better, just below for lower-is-better
+    for x in s[:3]:
+        ys = (float(np.nextafter(x, -np.inf)), x * (1 - 3e-6)) if decreasing else (float(np.nextafter(x, np.inf)), x * (1 + 3e-6))
+        for y in ys:
+            if y > lo:
+                cand.append(y)
     for c in cand:
         c = float(min(max(c, lo), hi))
         if c not in out:
@@ -271,3 +278,35 @@ def threshold_classes(scores, decreasing: bool, exact: bool = True, lo=0.0, hi=N
 
 def arr_key(*arrs) -> bytes:
     return b"".join(str(a.dtype).encode() + str(a.shape).encode() + np.ascontiguousarray(a).tobytes() for a in arrs)
+
+
+def paircode_boundary_pair(seed, i):
+    """label values for which products / pair codes pred*(max_ref+1)+ref land right at 2^8, 2^16 or 2^32
+    (an implementation that encodes a (prediction, reference) label pair in too small a type breaks exactly here)"""
+    r = rng(seed, "paircode", i)
+    B = [2**8, 2**16, 2**32][i % 3]
+    refs = [1, 2, 3, 7, 15, 16, 20, 50, 84, 255, 256, 1000, 4095, 65535, 65536]
+    rl = int(refs[(i // 3) % len(refs)])
+    base = [(B - 1) // (rl + 1), (B - 1) // rl, B // (rl + 1), (B - 1) // max(1, rl - 1)][(i // 45) % 4]
+    pl = max(1, base + int(r.integers(-1, 2)))
+    need = max(pl, rl)
+    dts = [d for d in (np.uint8, np.uint16, np.uint32, np.uint64) if np.iinfo(d).max >= need and need < 2**24 + 2**20]
+    if not dts:
+        pl = min(pl, 2**24 - 1)
+        dts = [np.uint32, np.uint64]
+    dtype = dts[int(r.integers(0, len(dts)))]
+    n = 24
+    pred = np.zeros(n, dtype=dtype)
+    refa = np.zeros(n, dtype=dtype)
+    # the boundary pair: IoU 5/6 ; a second, small-labelled pair ; one unmatched prediction
+    refa[2:8] = rl
+    pred[3:8] = pl
+    small_r = 1 if rl != 1 else 2
+    small_p = 1 if pl != 1 else 2
+    refa[12:16] = small_r
+    pred[12:17] = small_p
+    third = 3 if pl != 3 and small_p != 3 else 4
+    pred[20:22] = third
+    if i % 2:
+        pred, refa = np.stack([pred, np.zeros_like(pred)]), np.stack([refa, np.zeros_like(refa)])
+    return pred, refa
